@@ -171,6 +171,9 @@ struct DumpParser {
   const std::string& d;
   size_t i = 0;
   explicit DumpParser(const std::string& s) : d(s) {}
+  // integers >= 0 are stored as unsigned by default; with signedInts those that fit are stored through a signed type
+  // (the variant then holds Int32/Int64 instead of Uint32/Uint64: same value, different storage)
+  bool signedInts = false;
   std::string token() {
     size_t j = i;
     while (j < d.size() && d[j] != ',' && d[j] != ']' && d[j] != '}' && d[j] != ':') j++;
@@ -222,7 +225,11 @@ struct DumpParser {
     if (t == "f") { v.set(false); return true; }
     if (t[0] == 'i') {
       if (t[1] == '-') v.set((long long)std::stoll(t.substr(1)));
-      else v.set((unsigned long long)std::stoull(t.substr(1)));
+      else {
+        unsigned long long u = std::stoull(t.substr(1));
+        if (signedInts && u <= 9223372036854775807ull) v.set((long long)u);
+        else v.set(u);
+      }
       return true;
     }
     if (t[0] == 'F') {
